@@ -286,7 +286,8 @@ Create ==
   /\ LET k == step
          r == IF CD.dbc /\ InvListOf(cl, k, "inv") # 0 THEN AddInvChecks(fo, lst, cl, k) ELSE [fh |-> fo, ch |-> cl]
      IN /\ fo' = r.fh /\ cl' = r.ch
-        /\ regd' = IF CD.dbc THEN Append(regd, k) ELSE regd
+        \* every class created through the metaclass outside the library's own module is announced
+        /\ regd' = IF CD.dbc /\ CD.mod # "icontract._metaclass" THEN Append(regd, k) ELSE regd
         /\ pc' = "deco" /\ di' = 1
   /\ UNCHANGED <<hist, step, lst, ns, res>>
 
@@ -352,6 +353,12 @@ MemberView(ch, fh, lh, k, name) ==
   ELSE [kind |-> mem.kind, pre |-> EffPreOf(fh, lh, mem.f), snap |-> EffSnapOf(fh, lh, mem.f),
         post |-> EffPostOf(fh, lh, mem.f), invw |-> IsInvWrapped(fh, mem.f),
         nchk |-> CountCheckers(fh, mem.f), nfor |-> CountForeign(fh, mem.f)]
+
+\* identities of the list objects behind a member: outer precondition list, snapshots, postconditions, groups
+MemberListIds(ch, fh, lh, k, name) ==
+  LET mem == Lookup(ch, k, name)
+      c == IF mem.kind = "none" THEN 0 ELSE FindChecker(fh, mem.f, 0)
+  IN IF c = 0 THEN <<>> ELSE <<fh[c].pre, fh[c].snap, fh[c].post>> \o lh[fh[c].pre]
 
 ClassView(ch, fh, lh, k) ==
   [inv |-> EffInvOf(ch, lh, k, "inv"), oncall |-> EffInvOf(ch, lh, k, "oncall"), onset |-> EffInvOf(ch, lh, k, "onset"),
